@@ -2048,7 +2048,9 @@ def coneqp(P, q, G = None, h = None, dims = None, A = None, b = None,
         x = xnewcopy(q)
         xscal(-1.0, x)
         y = ynewcopy(b)
-        f3(x, y, matrix(0.0, (0,1)))
+        try: f3(x, y, matrix(0.0, (0,1)))
+        except ArithmeticError:
+            raise ValueError("Rank(A) < p or Rank([P; A; G]) < n")
 
         # dres = || P*x + q + A'*y || / resx0
         rx = xnewcopy(q)
